@@ -137,12 +137,24 @@ func checkC07(c *Ctx, r *Report, tier string) {
 	// defaults
 	if nc := c.Func("index", "newHnswConfig"); nc != nil {
 		okM, okM0 := false, false
-		for _, st := range fieldStoresIn(nc, fMmax) {
+		// the constructor and the helpers it calls on the configuration being built
+		scope := []*ssa.Function{nc}
+		eachInstr(nc, func(i ssa.Instruction) {
+			if cc := asCall(i); cc != nil && cc.StaticCallee() != nil && modLocal(cc.StaticCallee()) && recvTypeName(cc.StaticCallee()) == "hnswConfig" {
+				scope = append(scope, cc.StaticCallee())
+			}
+		})
+		var storesM, storesM0 []*ssa.Store
+		for _, g := range scope {
+			storesM = append(storesM, fieldStoresIn(g, fMmax)...)
+			storesM0 = append(storesM0, fieldStoresIn(g, fMmax0)...)
+		}
+		for _, st := range storesM {
 			if fieldOfValue(st.Val) == fM {
 				okM = true
 			}
 		}
-		for _, st := range fieldStoresIn(nc, fMmax0) {
+		for _, st := range storesM0 {
 			if b, ok := st.Val.(*ssa.BinOp); ok && b.Op == token.MUL {
 				n1, c1 := constInt(b.X)
 				n2, c2 := constInt(b.Y)
